@@ -81,17 +81,20 @@ def cp_cases(tier, seed):
             for pv in vecs:
                 p = list(pv)
                 rng.shuffle(p)
-                p2 = [rng.choice([-5, 0, 2, 7, 11]) for _ in range(n)]
                 nodes = list(range(1, n + 1))
+                conf = sorted(rng.sample(nodes, rng.randint(1, n)))      # only these nodes are reconfigured
+                p2 = [rng.choice([-5, 0, 2, 7, 11]) if k in conf else p[k - 1] for k in nodes]
                 sels = [(None, None, rng.sample(nodes, rng.randint(1, n))), (None, [rng.choice(nodes)], None),
                         ([k for k in nodes if not shape[k - 1]][:1], None, None)]
-                cases.append({"n": n, "deps": shape, "prio": p, "prio2": p2, "sels": sels})
+                cases.append({"n": n, "deps": shape, "prio": p, "prio2": p2, "conf": conf, "sels": sels})
     if tier == "quick":
         shapes5 = sd.all_shapes(5)
         for shape in rng.sample(shapes5, 120):
             p = [10 ** k for k in range(5)]
             rng.shuffle(p)
-            cases.append({"n": 5, "deps": shape, "prio": p, "prio2": [rng.randint(-9, 9) for _ in range(5)],
+            conf = sorted(rng.sample(range(1, 6), rng.randint(1, 5)))
+            cases.append({"n": 5, "deps": shape, "prio": p, "conf": conf,
+                          "prio2": [rng.randint(-9, 9) if k in conf else p[k - 1] for k in range(1, 6)],
                           "sels": [(None, None, [rng.randint(1, 5)])]})
     return cases
 
